@@ -564,6 +564,16 @@ func (m *metadataAPI) ShrinkISR(ctx context.Context, req *proto.ShrinkISROp) *st
 				leader, epoch, req.Leader, req.LeaderEpoch))
 	}
 
+	// Only a replica other than the leader can be removed from the ISR.
+	if !partition.inReplicas(req.ReplicaToRemove) {
+		return status.New(codes.FailedPrecondition,
+			fmt.Sprintf("%s is not a replica of partition %s", req.ReplicaToRemove, partition))
+	}
+	if req.ReplicaToRemove == leader {
+		return status.New(codes.FailedPrecondition,
+			fmt.Sprintf("Replica %s is the partition leader", req.ReplicaToRemove))
+	}
+
 	// Replicate ISR shrink through Raft.
 	op := &proto.RaftLog{
 		Op:          proto.Op_SHRINK_ISR,
@@ -613,6 +623,11 @@ func (m *metadataAPI) ExpandISR(ctx context.Context, req *proto.ExpandISROp) *st
 			codes.FailedPrecondition,
 			fmt.Sprintf("Leader generation mismatch, current leader: %s epoch: %d, got leader: %s epoch: %d",
 				leader, epoch, req.Leader, req.LeaderEpoch))
+	}
+
+	if !partition.inReplicas(req.ReplicaToAdd) {
+		return status.New(codes.FailedPrecondition,
+			fmt.Sprintf("%s is not a replica of partition %s", req.ReplicaToAdd, partition))
 	}
 
 	// Replicate ISR expand through Raft.
@@ -665,6 +680,15 @@ func (m *metadataAPI) ReportLeader(ctx context.Context, req *proto.ReportLeaderO
 			codes.FailedPrecondition,
 			fmt.Sprintf("Leader generation mismatch, current leader: %s epoch: %d, got leader: %s epoch: %d",
 				leader, epoch, req.Leader, req.LeaderEpoch))
+	}
+
+	// Only in-sync followers are witnesses. A replica that fell out of the ISR
+	// (e.g. because it cannot reach the leader) or the leader itself must not
+	// count towards the quorum, which is computed over the ISR.
+	if req.Replica == leader || !partition.inISR(req.Replica) {
+		return status.New(
+			codes.FailedPrecondition,
+			fmt.Sprintf("Replica %s is not an in-sync follower of partition %s", req.Replica, partition))
 	}
 
 	m.mu.Lock()
@@ -1205,6 +1229,13 @@ func (m *metadataAPI) RemoveFromISR(streamName, replica string, partitionID int3
 
 	// Idempotency check.
 	if partition.GetEpoch() >= epoch {
+		return nil
+	}
+
+	// The request was validated against the leader at the time it was made. If
+	// the replica has since been elected leader, the shrink is stale: the
+	// leader must stay in the ISR.
+	if leader, _ := partition.GetLeader(); leader == replica {
 		return nil
 	}
 
